@@ -15,7 +15,8 @@ THEOREMS = ['C09_locality', 'C09_interleaving_equals_solo_run', 'C09_interleavin
             'C09_execution_options_adopt_nothing', 'C09_each_session_is_a_core_run', 'C09_unit_of_work_is_the_code', 'C09_clear_is_the_code',
             'C09_clear_connection_is_the_code', 'C09_track_cloned_connections_is_the_code', 'C09_maps_stay_dictionaries', 'C09_quiescent_after_rollback',
             'C09_quiescent_after_commit', 'C09_example', 'C09_savepoint_locality', 'C09_interleaving_with_savepoints_equals_solo_run',
-            'C09_each_session_is_a_savepoint_run', 'C09_savepoint_example']
+            'C09_each_session_is_a_savepoint_run', 'C09_savepoint_example', 'C09_session_unit_of_work_is_the_code',
+            'C09_track_savepoint_is_the_code', 'C09_rollback_savepoint_is_the_code', 'C09_no_savepoint_survives_the_transaction']
 RULE = ('k = 2 or 3 session programs (add / set / delete / flush / commit / rollback / close / set-execution-options-on-the-connection / '
         'begin-, roll-back-, release-savepoint steps over the blog shape; schedules with savepoints are replayed in Layer M with savepoints, Model/ManagerSp.v) are '
         'interleaved step by step; each session has its own SQLite database, engine and connection but all share the one '
@@ -98,6 +99,8 @@ def gen_sp_prog(rng, i):
 def gen_cases(rng, n, tier):
     out = []
     cfgs = [dict(shape='blog', strategy=s, changes=c, twin=False) for s in ('validity', 'subquery') for c in (False, True)]
+    # a plugin that supplies a transaction attribute for some sessions only
+    cfgs += [dict(shape='blog', strategy='validity', changes=False, twin=False, origin=True)]
     for i in range(n):
         k = 2 if i % 3 else 3
         progs = [gen_session_prog(rng, j) for j in range(k)]
@@ -147,7 +150,7 @@ def _pysqlite_begin(conn):
 class MultiRun(object):
     """k sessions on k separate in-memory databases sharing one manager."""
 
-    def __init__(self, env, cfg, k):
+    def __init__(self, env, cfg, k, origins=None):
         import sqlalchemy as sa
         self.sa, self.env, self.cfg = sa, env, cfg
         self.engines, self.conns, self.sessions, self.recs = [], [], [], []
@@ -162,6 +165,8 @@ class MultiRun(object):
             env.Base.metadata.create_all(conn)
             conn.commit()
             s = sa.orm.Session(bind=conn, autoflush=cfg.get('autoflush', False))
+            if origins and origins[j]:
+                s.info['origin'] = origins[j]
             self.engines.append(eng)
             self.conns.append(conn)
             self.sessions.append(s)
@@ -233,9 +238,14 @@ class _EnvView(object):
         setattr(self._env, k, v)
 
 
-def run_schedule(env, cfg, progs, order):
+def origins_for(cfg, k):
+    # every second session says where it comes from; the others supply no transaction attribute
+    return [('10.0.0.%d' % (j + 1) if j % 2 == 0 else None) for j in range(k)] if cfg.get('origin') else [None] * k
+
+
+def run_schedule(env, cfg, progs, order, origins=None):
     """execute the interleaving; returns steps, maps, final snapshots"""
-    mr = MultiRun(env, cfg, len(progs))
+    mr = MultiRun(env, cfg, len(progs), origins)
     refs = [dict() for _ in progs]
     sps = [[] for _ in progs]
     pos = [0] * len(progs)
@@ -321,8 +331,14 @@ def run_schedule(env, cfg, progs, order):
                 pass
             finals.append(mr.recs[j].snapshot())
             s.rollback()
+        txattrs = []
+        if env.versioned:
+            txt = env.manager.transaction_cls.__table__
+            for c_ in mr.conns:
+                txattrs.append([list(r) for r in c_.execute(mr.sa.select(txt.c.id, txt.c.remote_addr).order_by(txt.c.id))])
+                c_.rollback()
         maps_end = mr.read_maps()
-        return dict(steps=mr.steps, maps=mr.maps, finals=finals, outcomes=outcomes, maps_end=maps_end)
+        return dict(steps=mr.steps, maps=mr.maps, finals=finals, outcomes=outcomes, maps_end=maps_end, txattrs=txattrs)
     finally:
         mr.close()
 
@@ -333,12 +349,23 @@ def _worker(chunk):
     with E.Env(options=hist.options_for(cfg), plugins=hist.plugins_for(cfg), build=hist.SHAPES[cfg['shape']](cfg)) as env:
         for idx, case in items:
             try:
-                full = run_schedule(env, cfg, case['progs'], case['order'])
+                origins = origins_for(cfg, len(case['progs']))
+                full = run_schedule(env, cfg, case['progs'], case['order'], origins)
                 solo = []
+                problem = None
                 for j, p in enumerate(case['progs']):
-                    r = run_schedule(env, cfg, [p], [0] * len(p))
+                    r = run_schedule(env, cfg, [p], [0] * len(p), [origins[j]])
                     solo.append(r['finals'][0])
-                out.append((idx, dict(full=full, solo=solo, ccfg=hist.reflect_cfg(env, cfg), exc=None)))
+                    if r['txattrs'] and full['txattrs'] and r['txattrs'][0] != full['txattrs'][j] and problem is None:
+                        problem = ('the transaction records of session %d carry other attributes than in its solo run: %r / %r'
+                                   % (j, full['txattrs'][j], r['txattrs'][0]))
+                for j in range(len(case['progs'])):
+                    # ... and exactly the attribute its own session supplies (none for a session that supplies none)
+                    wrong = [r_ for r_ in (full['txattrs'][j] if full['txattrs'] else []) if r_[1] != origins[j]]
+                    if wrong and problem is None:
+                        problem = ('transaction record %r of session %d carries remote_addr=%r, its session supplies %r'
+                                   % (wrong[0][0], j, wrong[0][1], origins[j]))
+                out.append((idx, dict(full=full, solo=solo, ccfg=hist.reflect_cfg(env, cfg), exc=problem)))
             except Exception as e:
                 import traceback
                 out.append((idx, dict(exc='%s: %s %s' % (type(e).__name__, e, traceback.format_exc()[-700:]))))
